@@ -1,6 +1,111 @@
 // Kani harnesses for minijinja-autoreload/src/lib.rs (included under cfg(kani)).
+//
+// Kani does not execute threads.  The schedule space of the property collapses, however: acquire_env
+// holds the `cached_env` mutex from entry to exit (acquirers are serialised) and a requester performs
+// one atomic step (set the flag under the notifier lock).  Every interleaving at lock granularity is
+// therefore a sequence of acquires in which each gap - before an acquire, and during the rebuild, i.e.
+// inside the creator callback - may or may not contain a request: a vector of symbolic booleans.
 #![allow(unused_imports)]
 use super::*;
+use std::sync::atomic::{AtomicBool, AtomicUsize, Ordering};
+
+static CREATED: AtomicUsize = AtomicUsize::new(0);
+static REQUEST_IN_CREATOR: AtomicBool = AtomicBool::new(false);
+
+pub(crate) fn random_state_stub() -> std::hash::RandomState {
+    unsafe { core::mem::transmute::<(u64, u64), std::hash::RandomState>((1, 2)) }
+}
+
+fn creator(notifier: Notifier) -> Result<Environment<'static>, Error> {
+    CREATED.fetch_add(1, Ordering::SeqCst);
+    if REQUEST_IN_CREATOR.load(Ordering::SeqCst) {
+        // a request that arrives while the rebuild is in progress
+        notifier.request_reload();
+        REQUEST_IN_CREATOR.store(false, Ordering::SeqCst);
+    }
+    core::mem::forget(notifier);
+    Ok(Environment::empty())
+}
+
+// @verif props=C20 tier=quick cap=900 group=autoreload fns=AutoReloader::{new,acquire_env},Notifier::{request_reload,should_reload,prepare_and_mark_reload}
+/// First acquire with a symbolic "request arrives during the rebuild" (issued from inside the creator through the
+/// notifier it is handed): the creator runs exactly once, and the request is NOT lost - it is still pending after
+/// the acquire returns exactly when it was issued (the flag is cleared before the creator runs, not after).
+#[kani::proof]
+#[kani::unwind(4)]
+#[kani::stub(std::hash::RandomState::new, random_state_stub)]
+fn c20_request_during_rebuild_is_kept() {
+    let during: bool = kani::any();
+    CREATED.store(0, Ordering::SeqCst);
+    REQUEST_IN_CREATOR.store(during, Ordering::SeqCst);
+    // (a capturing closure: boxing the zero-sized fn item itself makes kani-compiler 0.68 panic)
+    let tag: u8 = 1;
+    let reloader = AutoReloader::new(move |n| {
+        let _keep = tag;
+        creator(n)
+    });
+    let guard = reloader.acquire_env();
+    assert!(guard.is_ok());
+    assert!(CREATED.load(Ordering::SeqCst) == 1);
+    assert!(reloader.notifier.should_reload() == during);
+    kani::cover!(during);
+    kani::cover!(!during);
+    core::mem::forget(guard);
+    core::mem::forget(reloader);
+}
+
+/// One acquire_env from a directly constructed pre-state "an environment is cached" (the state every
+/// earlier successful acquire leaves behind), with the listed pending-request flag and reload mode.
+/// Together with c20_request_during_rebuild_is_kept (first acquire from the empty cache) these are the
+/// inductive steps that cover every gap of a longer schedule: a request that returned before the acquire =>
+/// a creation (or cache clear) after it; no request => the creator is not called again; the flag is consumed.
+macro_rules! cached_state_harness {
+    ($name:ident, $pending:expr, $fast:expr, $during:expr) => {
+        #[kani::proof]
+        #[kani::unwind(4)]
+        #[kani::stub(std::hash::RandomState::new, random_state_stub)]
+        fn $name() {
+            CREATED.store(0, Ordering::SeqCst);
+            REQUEST_IN_CREATOR.store($during, Ordering::SeqCst);
+            let tag: u8 = 1;
+            let reloader = AutoReloader {
+                env_creator: Box::new(move |n| {
+                    let _keep = tag;
+                    creator(n)
+                }),
+                notifier: Notifier::new(),
+                cached_env: Mutex::new(Some(Environment::empty())),
+            };
+            if $fast {
+                reloader.notifier().set_fast_reload(true);
+            }
+            if $pending {
+                // the request has returned before the acquire starts
+                reloader.notifier().request_reload();
+            }
+            let g = reloader.acquire_env();
+            assert!(g.is_ok());
+            let created = CREATED.load(Ordering::SeqCst);
+            if $pending && !$fast {
+                assert!(created == 1);
+            } else {
+                assert!(created == 0);
+            }
+            // the consumed request is gone; one that arrived during the rebuild is still pending
+            assert!(reloader.notifier.should_reload() == ($pending && !$fast && $during));
+            kani::cover!(true);
+            core::mem::forget(g);
+            core::mem::forget(reloader);
+        }
+    };
+}
+
+// @verif-block props=C20 group=autoreload doc=one_acquire_env_from_the_pre-state_"environment_cached"_with_the_listed_(request_pending,_fast_reload,_request_during_rebuild):_creator_called_iff_a_request_is_pending_and_fast_reload_is_off,_the_pending_request_is_consumed,_a_request_arriving_during_the_rebuild_stays_pending
+cached_state_harness!(c20_cached_no_request, false, false, false); // tier=quick cap=900
+cached_state_harness!(c20_cached_fast_pending, true, true, false); // tier=thorough cap=3600
+cached_state_harness!(c20_cached_pending_recreates, true, false, false); // tier=thorough cap=3600
+cached_state_harness!(c20_cached_pending_and_during, true, false, true); // tier=thorough cap=3600
+// @verif-end
 
 #[cfg(test)]
 mod playback {
